@@ -4,7 +4,7 @@
    i.e. over every number of threads, every program (any nesting / sequence of requests with any
    (shared, blocking, reentrant) flags) and every interleaving of their atomic sections. *)
 From Coq Require Import List Bool Arith PeanoNat.
-From PV Require Import C15.Model C15.Proofs C15.PathModel C15.PathProofs.
+From PV Require Import C15.Model C15.Proofs C15.PathModel C15.PathProofs C15.Users.
 Import ListNotations.
 
 (* While a thread is inside an exclusive body no other thread holds the lock in any mode: every
@@ -208,3 +208,15 @@ Theorem path_no_lost_wakeup :
     preachable_g pof ps -> stk (tl (getp ps p)) t = ExWait r n :: rest ->
     others_hold (tl (getp ps p)) t = false -> n = true.
 Proof. exact path_no_lost_wakeup_lemma. Qed.
+
+(* ================================================================================================
+   The users of path_lock (Users.v).  What the regenerated obligation `writers_take_exclusive :
+   writers_ok sites = true` (compiled on every run against the site list read from the source) means:
+   every lock site whose body writes takes the lock exclusively. *)
+Theorem writers_ok_meaning :
+  forall (l : list site), writers_ok l = true ->
+    forall s, In s l -> site_writes s = true -> site_mode s = Exclusive.
+Proof.
+  intros l H s Hs W. unfold writers_ok in H. rewrite forallb_forall in H. specialize (H s Hs).
+  rewrite W in H. destruct (site_mode s); [discriminate H|reflexivity].
+Qed.
